@@ -1,6180 +1,3 @@
-# result-not-floor/prod<2^53: steps line 6179
-srand 1
-rand 9690506
-rand 344
-rand 29
-rand 318
-rand 40001
-rand 6540066
-rand 1
-rand 12497613
-rand 6001724
-rand 5
-rand 12
-rand 4869771
-rand 150
-rand 121
-rand 301
-rand 15
-rand 243
-rand 38
-rand 8530372
-rand 70
-rand 6577269
-rand 92
-rand 7
-rand 7788
-rand 28
-rand 1513
-rand 11272836
-rand 11769492
-rand 9513050
-rand 10
-rand 8052
-rand 2
-rand 3787131
-rand 92
-rand 9
-rand 114599
-rand 11052690
-rand 8293590
-rand 2038133
-rand 1086
-rand 6
-rand 89323
-rand 42
-rand 34
-rand 9011796
-rand 1
-rand 11505019
-rand 39
-rand 1035599
-rand 1729969
-rand 9884416
-rand 1088032
-rand 5980383
-rand 43759
-rand 3034861
-rand 404996
-rand 45
-rand 31463
-rand 1
-rand 7517
-rand 179
-rand 4827901
-rand 153
-rand 29
-rand 15733
-rand 1
-rand 8725874
-rand 636
-rand 83
-rand 13
-rand 16575
-rand 12
-rand 11
-rand 22
-rand 24
-rand 8
-rand 56
-rand 271
-rand 127
-rand 66
-rand 20
-rand 118
-rand 9127020
-rand 179
-rand 121
-rand 9844751
-rand 38
-rand 24
-rand 5
-rand 28
-rand 2734204
-rand 7346472
-rand 24
-rand 69248
-rand 9274601
-rand 66163
-rand 10165
-rand 168
-rand 50
-rand 7742
-rand 8968066
-rand 10633743
-rand 6
-rand 12737683
-rand 5333884
-rand 12388010
-rand 4
-rand 34
-rand 36
-rand 66
-rand 11719698
-rand 4179019
-rand 59
-rand 12081052
-rand 2888605
-rand 46
-rand 12114013
-rand 102
-rand 17
-rand 11955038
-rand 28
-rand 53
-rand 11753703
-rand 33
-rand 16
-rand 5842478
-rand 2
-rand 223
-rand 126
-rand 75
-rand 10334136
-rand 191
-rand 4
-rand 1341
-rand 363533
-rand 11962748
-rand 83
-rand 121
-rand 2502226
-rand 14
-rand 24
-rand 52
-rand 3126
-rand 4435554
-rand 8
-rand 106
-rand 14
-rand 12140648
-rand 29
-rand 68
-rand 6405193
-rand 37
-rand 16
-rand 62
-rand 4501842
-rand 6517258
-rand 6
-rand 44
-rand 4194305
-rand 21
-rand 244
-rand 36
-rand 5
-rand 54
-rand 26145
-rand 60
-rand 74131
-rand 3199669
-rand 12217972
-rand 90550
-rand 239
-rand 44092
-rand 9
-rand 150002
-rand 7603265
-rand 78
-rand 3175470
-rand 1897426
-rand 1422569
-rand 72
-rand 1313
-rand 243
-rand 9815378
-rand 6517258
-rand 12114013
-rand 11269125
-rand 5028827
-rand 64
-rand 52
-rand 8293590
-rand 80
-rand 7680525
-rand 62
-rand 49810
-rand 11
-rand 5098189
-rand 18
-rand 9992650
-rand 11272836
-rand 22
-rand 1640529
-rand 11389236
-rand 481668
-rand 5361265
-rand 924
-rand 6
-rand 103
-rand 27
-rand 89
-rand 6
-rand 150002
-rand 166581
-rand 7621777
-rand 5702312
-rand 4153
-rand 6650898
-rand 159
-rand 1807
-rand 38
-rand 31
-rand 52
-rand 10190065
-rand 2912
-rand 3421012
-rand 112
-rand 9609
-rand 97
-rand 539
-rand 251
-rand 11955038
-rand 6002915
-rand 234
-rand 2460
-rand 27
-rand 3
-rand 8
-rand 1270
-rand 10165
-rand 6585498
-rand 1
-rand 44
-rand 12
-rand 11966280
-rand 99
-rand 5434873
-rand 18
-rand 8887914
-rand 70
-rand 5
-rand 10661854
-rand 243
-rand 14
-rand 9559389
-rand 24
-rand 34
-rand 6121999
-rand 2
-rand 16
-rand 6
-rand 2
-rand 2404414
-rand 11194118
-rand 999
-rand 512
-rand 57
-rand 2
-rand 98203
-rand 12117984
-rand 8
-rand 122
-rand 3
-rand 1
-rand 2
-rand 76
-rand 5100758
-rand 61
-rand 3787131
-rand 4482824
-rand 159
-rand 64
-rand 3076460
-rand 43
-rand 81724
-rand 27
-rand 5
-rand 7336370
-rand 11
-rand 42063
-rand 11692590
-rand 24
-rand 335
-rand 9658709
-rand 6
-rand 4606595
-rand 693
-rand 44092
-rand 29
-rand 12
-rand 3753300
-rand 12140648
-rand 2438011
-rand 15001
-rand 31
-rand 62
-rand 9
-rand 4194304
-rand 1
-rand 288
-rand 66
-rand 19
-rand 593023
-rand 55
-rand 10795778
-rand 72993
-rand 180
-rand 11383789
-rand 158
-rand 5753
-rand 7
-rand 9
-rand 162
-rand 40
-rand 12470205
-rand 33
-rand 80
-rand 24
-rand 1945069
-rand 775
-rand 5143871
-rand 10
-rand 9327215
-rand 79
-rand 9323879
-rand 69
-rand 8293590
-rand 100000
-rand 23
-rand 82
-rand 75
-rand 1267048
-rand 15
-rand 6026232
-rand 124767
-rand 8612
-rand 3
-rand 11
-rand 26
-rand 3821
-rand 7
-rand 5
-rand 10160745
-rand 79
-rand 11087059
-rand 57
-rand 120
-rand 110
-rand 21
-rand 86
-rand 6
-rand 80847
-rand 12557164
-rand 8749595
-rand 43015
-rand 3500112
-rand 20
-rand 19
-rand 107
-rand 101
-rand 2971410
-rand 80
-rand 4341424
-rand 45002
-rand 1154
-rand 10157974
-rand 8957
-rand 766
-rand 23
-rand 181
-rand 15000
-rand 106
-rand 53
-rand 3197202
-rand 7550992
-rand 3
-rand 4045
-rand 60
-rand 46
-rand 671
-rand 17
-rand 69
-rand 3625920
-rand 5
-rand 6518593
-rand 1185
-rand 2758
-rand 7336370
-rand 53
-rand 9274601
-rand 40
-rand 5
-rand 7697976
-rand 94
-rand 64
-rand 629
-rand 3
-rand 243
-rand 21
-rand 8255116
-rand 9274601
-rand 14
-rand 11636283
-rand 7581961
-rand 3774413
-rand 11
-rand 7
-rand 31
-rand 715686
-rand 130
-rand 12
-rand 4283124
-rand 178
-rand 3821
-rand 4047
-rand 20001
-rand 19712
-rand 7
-rand 39
-rand 28
-rand 74
-rand 5
-rand 6963813
-rand 2178306
-rand 147
-rand 3197202
-rand 127001
-rand 3566377
-rand 2420127
-rand 16
-rand 8681293
-rand 21
-rand 62
-rand 19712
-rand 60
-rand 2373637
-rand 8852153
-rand 92
-rand 64
-rand 811136
-rand 9992650
-rand 26
-rand 88446
-rand 11118378
-rand 37
-rand 126
-rand 3056
-rand 8488
-rand 8
-rand 232
-rand 8591533
-rand 111528
-rand 11966280
-rand 6585498
-rand 7621777
-rand 179
-rand 37
-rand 83
-rand 3458418
-rand 1879781
-rand 75
-rand 5757439
-rand 97
-rand 6159316
-rand 61
-rand 4
-rand 3199669
-rand 12068641
-rand 117
-rand 26
-rand 31
-rand 4462243
-rand 10626960
-rand 2
-rand 5969831
-rand 98
-rand 37
-rand 9831077
-rand 28
-rand 56
-rand 53
-rand 11900998
-rand 27
-rand 2888605
-rand 9192442
-rand 16
-rand 341941
-rand 86
-rand 7484033
-rand 1000
-rand 458667
-rand 4982210
-rand 6
-rand 706
-rand 816606
-rand 34
-rand 208
-rand 1536817
-rand 8363573
-rand 239
-rand 8482786
-rand 75
-rand 4283124
-rand 98
-rand 50
-rand 62
-rand 3647044
-rand 12068641
-rand 5980383
-rand 30
-rand 11882945
-rand 11505019
-rand 4462243
-rand 22
-rand 19
-rand 48
-rand 1
-rand 1404196
-rand 290047
-rand 65
-rand 53
-rand 86
-rand 17
-rand 9516481
-rand 34
-rand 26
-rand 6207671
-rand 3863556
-rand 25
-rand 16
-rand 49
-rand 8046038
-rand 8150273
-rand 2796731
-rand 7414296
-rand 2460
-rand 75513
-rand 4
-rand 7152117
-rand 51
-rand 629
-rand 74131
-rand 1
-rand 4218852
-rand 1404196
-rand 6640412
-rand 44
-rand 6300126
-rand 5167698
-rand 100001
-rand 6807478
-rand 5434873
-rand 3821
-rand 3026691
-rand 11
-rand 7719458
-rand 21
-rand 96
-rand 2107665
-rand 82
-rand 914
-rand 7530944
-rand 8104765
-rand 91
-rand 73
-rand 26145
-rand 5746284
-rand 2357700
-rand 65537
-rand 8855
-rand 86894
-rand 10190065
-rand 5098189
-rand 31463
-rand 7268298
-rand 4218852
-rand 94
-rand 3480625
-rand 83
-rand 5
-rand 4630694
-rand 11052690
-rand 10
-rand 10957978
-rand 11383789
-rand 6367060
-rand 9012979
-rand 46
-rand 43
-rand 21
-rand 147492
-rand 112
-rand 14
-rand 7895200
-rand 61
-rand 6098138
-rand 5704779
-rand 10840533
-rand 64
-rand 2812046
-rand 201
-rand 82
-rand 149
-rand 94551
-rand 42
-rand 5
-rand 7697372
-rand 6729097
-rand 715686
-rand 65
-rand 6971786
-rand 17
-rand 290047
-rand 6026232
-rand 251
-rand 182273
-rand 1
-rand 49
-rand 2796731
-rand 14
-rand 4628324
-rand 24
-rand 20
-rand 86
-rand 118
-rand 50
-rand 78
-rand 69
-rand 36
-rand 21
-rand 5538449
-rand 6001724
-rand 1146793
-rand 5227146
-rand 35
-rand 83
-rand 50665
-rand 8612
-rand 11
-rand 4347823
-rand 1
-rand 73
-rand 11243565
-rand 42666
-rand 1404196
-rand 4847812
-rand 6963813
-rand 8200583
-rand 2734204
-rand 25154
-rand 82
-rand 130
-rand 32
-rand 2912
-rand 42063
-rand 28438
-rand 3
-rand 27
-rand 2
-rand 8180968
-rand 2
-rand 9776538
-rand 111
-rand 180
-rand 1872992
-rand 4279
-rand 4872285
-rand 6010476
-rand 66
-rand 97
-rand 16
-rand 8186720
-rand 12
-rand 137
-rand 86
-rand 7760447
-rand 200
-rand 7302004
-rand 28
-rand 53
-rand 51
-rand 74
-rand 19
-rand 18
-rand 811136
-rand 11077373
-rand 5685527
-rand 276
-rand 6697934
-rand 64
-rand 320851
-rand 82
-rand 187
-rand 11962748
-rand 3901913
-rand 2187601
-rand 54
-rand 2768622
-rand 87
-rand 4
-rand 80
-rand 197547
-rand 4468286
-rand 6807478
-rand 164
-rand 80
-rand 20892
-rand 5
-rand 605
-rand 5
-rand 5603917
-rand 9011796
-rand 76
-rand 12562335
-rand 147
-rand 175
-rand 594
-rand 143
-rand 11522112
-rand 94
-rand 212
-rand 2716225
-rand 4
-rand 20
-rand 38
-rand 27
-rand 23
-rand 82
-rand 88
-rand 5
-rand 15
-rand 4
-rand 7
-rand 2709869
-rand 3355011
-rand 4257934
-rand 8836625
-rand 6749022
-rand 18
-rand 13
-rand 74
-rand 539
-rand 69
-rand 4
-rand 101
-rand 56
-rand 1274475
-rand 8667342
-rand 37
-rand 182273
-rand 8704491
-rand 3056
-rand 25
-rand 84
-rand 76
-rand 99
-rand 12749999
-rand 96
-rand 4819194
-rand 17
-rand 4468286
-rand 12737683
-rand 23
-rand 22
-rand 571212
-rand 64
-rand 12235330
-rand 8363573
-rand 37
-rand 4982210
-rand 54
-rand 4
-rand 999
-rand 227184
-rand 3703195
-rand 8
-rand 49
-rand 5
-rand 2348244
-rand 9058
-rand 16
-rand 34
-rand 999
-rand 65536
-rand 1017
-rand 42666
-rand 30
-rand 1690450
-rand 12475795
-rand 30002
-rand 9437623
-rand 14
-rand 64
-rand 3000
-rand 56
-rand 10
-rand 5653109
-rand 61
-rand 17
-rand 380
-rand 483496
-rand 11187797
-rand 101
-rand 12495966
-rand 156
-rand 12296751
-rand 9359280
-rand 1104224
-rand 42
-rand 33
-rand 191
-rand 2971410
-rand 10507394
-rand 12104500
-rand 58
-rand 15
-rand 13
-rand 57
-rand 4283124
-rand 79
-rand 18
-rand 9
-rand 35
-rand 43759
-rand 79
-rand 9
-rand 12737683
-rand 56470
-rand 96
-rand 9104623
-rand 1
-rand 17
-rand 18
-rand 24
-rand 66
-rand 79
-rand 280
-rand 9206346
-rand 7506227
-rand 3647044
-rand 6518593
-rand 10358294
-rand 206
-rand 5340527
-rand 85
-rand 225
-rand 8927
-rand 31631
-rand 5
-rand 83
-rand 117
-rand 92
-rand 9992650
-rand 5722253
-rand 26
-rand 3202534
-rand 1
-rand 11465766
-rand 33
-rand 73
-rand 169476
-rand 56014
-rand 20
-rand 10364392
-rand 257
-rand 82
-rand 341941
-rand 75
-rand 110
-rand 4409197
-rand 6300126
-rand 323
-rand 78
-rand 83
-rand 2536534
-rand 30
-rand 24
-rand 106
-rand 3352750
-rand 168
-rand 1341
-rand 32
-rand 40681
-rand 6
-rand 18
-rand 5462308
-rand 8637797
-rand 8
-rand 8
-rand 10
-rand 9369031
-rand 1088032
-rand 349
-rand 206
-rand 70
-rand 4700516
-rand 6276810
-rand 2536534
-rand 11117737
-rand 3056
-rand 6538023
-rand 4179019
-rand 197
-rand 45895
-rand 75
-rand 17
-rand 31664
-rand 5704779
-rand 11190
-rand 3
-rand 178
-rand 12737346
-rand 88
-rand 12
-rand 65535
-rand 65
-rand 12737683
-rand 148739
-rand 1872992
-rand 11383789
-rand 672
-rand 6222500
-rand 671
-rand 126
-rand 96
-rand 8845082
-rand 9323879
-rand 36
-rand 7336370
-rand 31
-rand 2404414
-rand 9386522
-rand 1513
-rand 13
-rand 2373637
-rand 73
-rand 11269863
-rand 4482824
-rand 244
-rand 24
-rand 3753300
-rand 4319756
-rand 1725271
-rand 18
-rand 84
-rand 6
-rand 93
-rand 179
-rand 3126
-rand 38
-rand 28
-rand 25
-rand 12
-rand 30
-rand 30
-rand 9192442
-rand 126
-rand 3894225
-rand 8626434
-rand 93
-rand 48
-rand 3500112
-rand 1496
-rand 62
-rand 2221
-rand 92
-rand 12737683
-rand 156
-rand 25
-rand 149
-rand 12068641
-rand 3566377
-rand 12196610
-rand 8335517
-rand 82
-rand 4476
-rand 9835640
-rand 10433374
-rand 904
-rand 55
-rand 793
-rand 10
-rand 2
-rand 3056
-rand 6516854
-rand 6484740
-rand 282
-rand 4643372
-rand 7346472
-rand 6577269
-rand 10479848
-rand 89
-rand 5
-rand 8307631
-rand 7630642
-rand 6517258
-rand 580
-rand 4462243
-rand 10479848
-rand 49810
-rand 1364
-rand 1000
-rand 6001724
-rand 11465766
-rand 264220
-rand 46
-rand 11665379
-rand 40
-rand 12
-rand 80
-rand 126
-rand 87
-rand 9815378
-rand 100
-rand 44
-rand 54
-rand 2
-rand 21
-rand 180
-rand 3
-rand 96
-rand 11615869
-rand 257
-rand 103
-rand 2348244
-rand 86
-rand 57
-rand 4468286
-rand 89323
-rand 3
-rand 60
-rand 118
-rand 13
-rand 10240172
-rand 4
-rand 60
-rand 3428336
-rand 5507646
-rand 7742
-rand 9572151
-rand 10
-rand 35
-rand 32
-rand 2
-rand 11171000
-rand 45
-rand 109
-rand 9
-rand 9
-rand 64
-rand 5755554
-rand 30102
-rand 6
-rand 42
-rand 170
-rand 2502226
-rand 8
-rand 7081941
-rand 117
-rand 481668
-rand 3566377
-rand 6630159
-rand 61
-rand 10
-rand 6749022
-rand 36
-rand 3101290
-rand 17
-rand 83
-rand 12217972
-rand 2668
-rand 12322756
-rand 274
-rand 1418773
-rand 64
-rand 896405
-rand 17
-rand 7775376
-rand 93
-rand 6585498
-rand 39
-rand 46
-rand 33
-rand 21
-rand 48
-rand 187
-rand 103
-rand 33
-rand 11891703
-rand 52
-rand 5495811
-rand 87
-rand 13
-rand 2618672
-rand 593023
-rand 159
-rand 9609
-rand 23
-rand 14
-rand 65
-rand 10364392
-rand 7
-rand 1035599
-rand 9127020
-rand 2011698
-rand 91
-rand 59
-rand 26
-rand 22
-rand 9252996
-rand 33
-rand 257
-rand 73
-rand 37
-rand 6
-rand 123
-rand 45
-rand 7
-rand 343
-rand 3863556
-rand 11606057
-rand 1890532
-rand 11272836
-rand 6031
-rand 62
-rand 4191911
-rand 12235330
-rand 63
-rand 25
-rand 6848864
-rand 2404414
-rand 571212
-rand 8
-rand 2778803
-rand 38
-rand 1462852
-rand 367453
-rand 111528
-rand 41
-rand 79
-rand 94
-rand 93
-rand 107
-rand 75
-rand 4341424
-rand 2
-rand 49
-rand 9611484
-rand 706
-rand 17
-rand 11955038
-rand 100000
-rand 86894
-rand 8
-rand 2
-rand 1035599
-rand 17
-rand 257
-rand 3355941
-rand 8815117
-rand 12117984
-rand 323
-rand 69
-rand 9080007
-rand 147
-rand 9964
-rand 6276810
-rand 320851
-rand 5842478
-rand 21
-rand 5814779
-rand 1
-rand 16
-rand 1
-rand 5
-rand 7506227
-rand 30
-rand 6413791
-rand 5755554
-rand 7651801
-rand 9274601
-rand 570110
-rand 4285
-rand 3
-rand 1640529
-rand 12243492
-rand 33
-rand 2460
-rand 13
-rand 79
-rand 33102
-rand 14
-rand 11
-rand 83
-rand 82
-rand 56
-rand 4961660
-rand 46
-rand 5340527
-rand 78
-rand 10768284
-rand 87
-rand 10165
-rand 12
-rand 7
-rand 66
-rand 54
-rand 77
-rand 12235330
-rand 4936659
-rand 7680525
-rand 12737683
-rand 16
-rand 147
-rand 10034
-rand 2187601
-rand 96
-rand 46150
-rand 37
-rand 24
-rand 17
-rand 4676979
-rand 580
-rand 28438
-rand 70
-rand 175
-rand 9761912
-rand 349
-rand 1086
-rand 417
-rand 2666651
-rand 303
-rand 4
-rand 17
-rand 10507394
-rand 152596
-rand 1840
-rand 8608697
-rand 7651801
-rand 49
-rand 5435264
-rand 8749595
-rand 54
-rand 21
-rand 4283124
-rand 42243
-rand 86894
-rand 27
-rand 9658709
-rand 672
-rand 2
-rand 84
-rand 9240157
-rand 106
-rand 3126
-rand 1003842
-rand 73
-rand 2716225
-rand 11118378
-rand 54
-rand 2273565
-rand 11187797
-rand 87
-rand 2908620
-rand 46
-rand 35
-rand 87710
-rand 4420161
-rand 133
-rand 97
-rand 343
-rand 57457
-rand 363533
-rand 9240157
-rand 3774413
-rand 34
-rand 10
-rand 179
-rand 3246
-rand 78
-rand 696673
-rand 10034
-rand 93
-rand 1309755
-rand 10364392
-rand 6961459
-rand 53
-rand 2666651
-rand 17
-rand 18
-rand 133
-rand 30
-rand 909174
-rand 10712723
-rand 8849025
-rand 159
-rand 588
-rand 6657774
-rand 3806
-rand 3
-rand 13
-rand 6
-rand 8
-rand 3
-rand 140644
-rand 88446
-rand 24
-rand 81
-rand 270
-rand 24
-rand 8388609
-rand 1605087
-rand 25
-rand 280
-rand 11812072
-rand 2011698
-rand 55
-rand 3
-rand 3009809
-rand 999
-rand 2112251
-rand 11465766
-rand 7514894
-rand 30
-rand 9007
-rand 11533181
-rand 11794362
-rand 92
-rand 23
-rand 1418773
-rand 28
-rand 1
-rand 64
-rand 15
-rand 6982212
-rand 12
-rand 114
-rand 40
-rand 21
-rand 56014
-rand 187
-rand 32664
-rand 12279510
-rand 96
-rand 1891823
-rand 8849025
-rand 277
-rand 146
-rand 8591533
-rand 53
-rand 8
-rand 510981
-rand 187
-rand 3
-rand 153
-rand 4468286
-rand 48458
-rand 2
-rand 8887914
-rand 17
-rand 11731163
-rand 70
-rand 158
-rand 27
-rand 80
-rand 65535
-rand 2961
-rand 47
-rand 904
-rand 28
-rand 10606747
-rand 5505
-rand 76
-rand 42
-rand 29
-rand 6
-rand 44
-rand 72993
-rand 2367606
-rand 3076982
-rand 35
-rand 17
-rand 11891703
-rand 10795778
-rand 100783
-rand 10
-rand 21
-rand 12196610
-rand 8822539
-rand 11533181
-rand 62804
-rand 8908641
-rand 12557164
-rand 7
-rand 3860463
-rand 7
-rand 9955477
-rand 35
-rand 14976
-rand 13
-rand 3774413
-rand 68
-rand 61
-rand 10840533
-rand 3753300
-rand 11055603
-rand 25
-rand 3
-rand 715686
-rand 11
-rand 5
-rand 3101290
-rand 2
-rand 2716225
-rand 1144647
-rand 5462308
-rand 3901913
-rand 11011576
-rand 1
-rand 4
-rand 481668
-rand 5321902
-rand 4
-rand 65
-rand 570110
-rand 26
-rand 11636283
-rand 9369031
-rand 9513050
-rand 3787131
-rand 629
-rand 9508
-rand 9383727
-rand 1
-rand 24
-rand 9266356
-rand 17
-rand 68
-rand 61
-rand 79
-rand 4729742
-rand 5476300
-rand 28
-rand 22
-rand 126
-rand 55
-rand 17
-rand 9757552
-rand 532
-rand 254
-rand 1267048
-rand 83
-rand 12495966
-rand 31631
-rand 25
-rand 40958
-rand 75
-rand 11830128
-rand 76
-rand 1000
-rand 122
-rand 4547965
-rand 231
-rand 10
-rand 9992650
-rand 197
-rand 5
-rand 37
-rand 160
-rand 82
-rand 8153105
-rand 1
-rand 766
-rand 19
-rand 6405193
-rand 150
-rand 2912
-rand 5704779
-rand 2112251
-rand 18
-rand 5
-rand 33
-rand 7550992
-rand 49
-rand 60
-rand 9104623
-rand 3
-rand 212
-rand 4872285
-rand 163529
-rand 164
-rand 21
-rand 21
-rand 186
-rand 5476300
-rand 36
-rand 925
-rand 13
-rand 50
-rand 32
-rand 2877
-rand 999
-rand 775
-rand 318
-rand 8725874
-rand 61
-rand 58
-rand 6200018
-rand 62
-rand 25
-rand 72
-rand 36
-rand 19
-rand 9117078
-rand 3
-rand 70
-rand 50
-rand 12
-rand 8849025
-rand 6393748
-rand 2931171
-rand 21
-rand 10345246
-rand 3
-rand 6001724
-rand 10157974
-rand 933941
-rand 66
-rand 5236828
-rand 3852134
-rand 54
-rand 20431
-rand 8388607
-rand 71
-rand 112
-rand 9
-rand 636
-rand 146
-rand 52
-rand 12104500
-rand 5170
-rand 9992650
-rand 5361265
-rand 56
-rand 8153105
-rand 13
-rand 19
-rand 10957978
-rand 215
-rand 83
-rand 4154238
-rand 46
-rand 86894
-rand 93549
-rand 12
-rand 6087
-rand 4
-rand 5
-rand 9117078
-rand 17
-rand 2
-rand 38
-rand 83
-rand 366
-rand 2778803
-rand 12
-rand 7464904
-rand 481668
-rand 7873886
-rand 32664
-rand 5980383
-rand 21
-rand 45895
-rand 62
-rand 5454699
-rand 303
-rand 178
-rand 8548685
-rand 9515584
-rand 49
-rand 104233
-rand 98
-rand 103
-rand 8854616
-rand 9
-rand 8
-rand 39
-rand 3753300
-rand 60
-rand 8005357
-rand 2508113
-rand 2222240
-rand 70
-rand 9423176
-rand 2404414
-rand 97
-rand 39
-rand 5610729
-rand 50986
-rand 155
-rand 13
-rand 75
-rand 9714120
-rand 2038133
-rand 9761912
-rand 102
-rand 28
-rand 3428336
-rand 78
-rand 172
-rand 10474984
-rand 11011576
-rand 81724
-rand 6535982
-rand 1628398
-rand 164
-rand 15
-rand 194
-rand 205
-rand 7719458
-rand 83
-rand 244
-rand 11269863
-rand 6
-rand 43
-rand 12657874
-rand 3076982
-rand 693
-rand 40617
-rand 6
-rand 32
-rand 1628398
-rand 1
-rand 18
-rand 4
-rand 5757439
-rand 24242
-rand 3
-rand 10
-rand 182273
-rand 14
-rand 7775376
-rand 48
-rand 49256
-rand 2
-rand 7
-rand 83
-rand 15
-rand 7206379
-rand 10828631
-rand 12140648
-rand 10322088
-rand 21
-rand 2991435
-rand 1879781
-rand 14
-rand 19
-rand 9998215
-rand 9390884
-rand 86
-rand 3480046
-rand 17
-rand 90
-rand 14
-rand 82
-rand 4468286
-rand 85
-rand 5
-rand 2501
-rand 180
-rand 20892
-rand 74131
-rand 45
-rand 10190065
-rand 284843
-rand 49
-rand 57
-rand 24
-rand 61
-rand 8612
-rand 6807478
-rand 31631
-rand 8388608
-rand 738474
-rand 110
-rand 8
-rand 2
-rand 4501842
-rand 70
-rand 104233
-rand 11087059
-rand 104736
-rand 150
-rand 52
-rand 11891703
-rand 2
-rand 49256
-rand 1690450
-rand 1270
-rand 10957978
-rand 4910268
-rand 2931171
-rand 16
-rand 793584
-rand 3863556
-rand 7589216
-rand 1160779
-rand 8604021
-rand 34
-rand 34
-rand 4468286
-rand 83
-rand 22
-rand 39
-rand 2
-rand 147
-rand 148739
-rand 35
-rand 2939
-rand 3076982
-rand 6413791
-rand 39
-rand 51
-rand 1556922
-rand 4502
-rand 43
-rand 4936659
-rand 298
-rand 96
-rand 1632393
-rand 5098189
-rand 284843
-rand 126
-rand 9815378
-rand 6
-rand 14
-rand 7760989
-rand 9843592
-rand 89
-rand 3001
-rand 3
-rand 5028827
-rand 79
-rand 159
-rand 56
-rand 111
-rand 23
-rand 113
-rand 27
-rand 7719458
-rand 1
-rand 12
-rand 96
-rand 651
-rand 3
-rand 28
-rand 64
-rand 2
-rand 94551
-rand 40
-rand 9515584
-rand 1
-rand 345216
-rand 4
-rand 6001724
-rand 24136
-rand 42
-rand 81724
-rand 6341176
-rand 999
-rand 3034861
-rand 21
-rand 5227146
-rand 243
-rand 15
-rand 7
-rand 2
-rand 10
-rand 79
-rand 150001
-rand 672
-rand 580
-rand 110
-rand 3
-rand 21
-rand 50
-rand 220
-rand 105
-rand 19
-rand 92
-rand 19
-rand 223
-rand 187
-rand 9533217
-rand 13
-rand 7550992
-rand 1879781
-rand 7480828
-rand 9537602
-rand 15733
-rand 14
-rand 43499
-rand 16575
-rand 3062228
-rand 896405
-rand 7
-rand 5560058
-rand 5814779
-rand 3
-rand 6671839
-rand 12
-rand 5028827
-rand 9327215
-rand 11117737
-rand 18
-rand 14
-rand 82
-rand 94
-rand 1
-rand 10361549
-rand 30
-rand 44
-rand 6098138
-rand 335
-rand 9437623
-rand 71
-rand 8815117
-rand 9559389
-rand 14
-rand 1276031
-rand 22
-rand 113
-rand 276
-rand 82
-rand 25154
-rand 18
-rand 327
-rand 578169
-rand 89
-rand 218310
-rand 100000
-rand 11465766
-rand 38
-rand 35
-rand 597835
-rand 9815378
-rand 13
-rand 79
-rand 8898947
-rand 23
-rand 9192442
-rand 6200018
-rand 18
-rand 12
-rand 4474881
-rand 163432
-rand 50
-rand 12012157
-rand 14
-rand 11962748
-rand 11229772
-rand 6848864
-rand 3458418
-rand 223
-rand 44
-rand 7589216
-rand 327
-rand 2374617
-rand 6650898
-rand 25
-rand 1
-rand 75
-rand 6382647
-rand 200
-rand 172
-rand 5610729
-rand 83
-rand 62
-rand 2931171
-rand 45
-rand 17
-rand 26
-rand 343
-rand 11389236
-rand 3458418
-rand 5
-rand 107
-rand 29
-rand 1516
-rand 54
-rand 622990
-rand 84
-rand 9
-rand 24
-rand 10554399
-rand 1
-rand 4474881
-rand 227184
-rand 11147193
-rand 19
-rand 9258911
-rand 6
-rand 7506227
-rand 7211526
-rand 312
-rand 178
-rand 34
-rand 11628686
-rand 532
-rand 113
-rand 113
-rand 16
-rand 33
-rand 24
-rand 9513050
-rand 80
-rand 30
-rand 1725271
-rand 12
-rand 121
-rand 12
-rand 212
-rand 9533217
-rand 13
-rand 3962
-rand 10581996
-rand 13
-rand 10240840
-rand 19
-rand 22
-rand 2
-rand 7732706
-rand 43
-rand 3202534
-rand 3056
-rand 19
-rand 50
-rand 34
-rand 24242
-rand 6
-rand 87
-rand 4827901
-rand 30102
-rand 55
-rand 20
-rand 8909696
-rand 264220
-rand 11882945
-rand 97
-rand 9012979
-rand 20
-rand 2931171
-rand 3993983
-rand 45
-rand 78
-rand 8637797
-rand 7
-rand 21
-rand 51
-rand 82
-rand 7742
-rand 3500112
-rand 4090454
-rand 70
-rand 9609
-rand 4145976
-rand 33
-rand 92
-rand 8005357
-rand 11
-rand 2107665
-rand 25
-rand 7732706
-rand 57
-rand 5
-rand 7069501
-rand 14
-rand 11505019
-rand 17
-rand 10840533
-rand 4462243
-rand 107
-rand 1513
-rand 29
-rand 9072657
-rand 133
-rand 70
-rand 5258785
-rand 70
-rand 180368
-rand 5678759
-rand 111
-rand 21
-rand 3
-rand 98
-rand 104
-rand 6729097
-rand 26
-rand 61
-rand 2
-rand 10
-rand 86
-rand 79
-rand 8704491
-rand 295
-rand 988229
-rand 12643352
-rand 4
-rand 9761912
-rand 9572151
-rand 6538023
-rand 128
-rand 18
-rand 93
-rand 5462308
-rand 1154
-rand 2793088
-rand 8749595
-rand 34295
-rand 12
-rand 149
-rand 1027174
-rand 4
-rand 3
-rand 29
-rand 8
-rand 2666651
-rand 3202534
-rand 18
-rand 6535982
-rand 8
-rand 4827901
-rand 4378773
-rand 108
-rand 71
-rand 8104765
-rand 1632393
-rand 25
-rand 35
-rand 56
-rand 10069834
-rand 17922
-rand 45895
-rand 2348244
-rand 343
-rand 11187797
-rand 5412056
-rand 5702312
-rand 392
-rand 50665
-rand 578169
-rand 92
-rand 28438
-rand 2
-rand 10
-rand 10
-rand 40000
-rand 9559389
-rand 6334376
-rand 72
-rand 38
-rand 857
-rand 90550
-rand 83
-rand 1000
-rand 458667
-rand 2666198
-rand 4501842
-rand 6880705
-rand 64
-rand 81
-rand 295
-rand 10840533
-rand 9831077
-rand 41
-rand 5969831
-rand 12237305
-rand 12114013
-rand 66163
-rand 24
-rand 47
-rand 55
-rand 13
-rand 9396111
-rand 127001
-rand 50265
-rand 2912
-rand 512
-rand 342
-rand 284843
-rand 257
-rand 6963813
-rand 11269125
-rand 46150
-rand 3076982
-rand 48224
-rand 14
-rand 33
-rand 16
-rand 7
-rand 3
-rand 35
-rand 10
-rand 40
-rand 11
-rand 1807
-rand 4122610
-rand 50
-rand 14
-rand 82
-rand 8335517
-rand 50
-rand 312
-rand 127
-rand 20
-rand 32
-rand 416301
-rand 99
-rand 3852134
-rand 4501842
-rand 97
-rand 10957978
-rand 111453
-rand 13
-rand 5361265
-rand 23
-rand 25
-rand 6087
-rand 12235330
-rand 12
-rand 7
-rand 11603080
-rand 102
-rand 4154238
-rand 41
-rand 22068
-rand 9537602
-rand 52931
-rand 42063
-rand 3126
-rand 445433
-rand 482
-rand 4630694
-rand 61
-rand 65535
-rand 41
-rand 79
-rand 5227146
-rand 8
-rand 17
-rand 4936659
-rand 5340527
-rand 4643372
-rand 54
-rand 6
-rand 5143871
-rand 14
-rand 20
-rand 1729969
-rand 9
-rand 1146793
-rand 25
-rand 11077373
-rand 13
-rand 2
-rand 7674675
-rand 2618672
-rand 4
-rand 43
-rand 60
-rand 28
-rand 4940769
-rand 23
-rand 33102
-rand 5753
-rand 775
-rand 8046038
-rand 52
-rand 6518593
-rand 2877
-rand 14
-rand 2178306
-rand 61
-rand 22
-rand 2625
-rand 243
-rand 49256
-rand 8661286
-rand 243
-rand 5755554
-rand 1
-rand 42
-rand 2613
-rand 9383727
-rand 191
-rand 52931
-rand 90
-rand 20
-rand 10499692
-rand 3529
-rand 9327215
-rand 19
-rand 2908620
-rand 9359280
-rand 35
-rand 3
-rand 2531
-rand 11147193
-rand 27
-rand 15
-rand 22
-rand 112
-rand 3101290
-rand 284843
-rand 34
-rand 234
-rand 3246
-rand 94
-rand 101
-rand 7312313
-rand 1
-rand 78
-rand 130
-rand 2912
-rand 2768622
-rand 1160779
-rand 8
-rand 2716225
-rand 630856
-rand 53
-rand 5227146
-rand 9117078
-rand 83
-rand 4117563
-rand 1
-rand 76
-rand 9488575
-rand 6098138
-rand 5987211
-rand 12196610
-rand 25
-rand 38
-rand 111
-rand 98
-rand 621
-rand 28
-rand 140644
-rand 6448822
-rand 20
-rand 7732706
-rand 92
-rand 11794362
-rand 6185594
-rand 126
-rand 3
-rand 67
-rand 4
-rand 10433374
-rand 2666651
-rand 39
-rand 74131
-rand 6438880
-rand 26591
-rand 2862368
-rand 2438011
-rand 7256313
-rand 50265
-rand 15
-rand 126
-rand 7835
-rand 10396043
-rand 1513
-rand 1690450
-rand 2971410
-rand 15
-rand 47
-rand 2273565
-rand 4819194
-rand 29
-rand 29
-rand 9
-rand 10
-rand 5100758
-rand 26
-rand 8530372
-rand 8854616
-rand 18
-rand 6207671
-rand 13
-rand 390374
-rand 10
-rand 75262
-rand 108
-rand 3
-rand 65536
-rand 114
-rand 56
-rand 12
-rand 46
-rand 208
-rand 28
-rand 9437623
-rand 31631
-rand 8667342
-rand 11606057
-rand 17
-rand 14
-rand 6630159
-rand 34
-rand 137
-rand 19
-rand 11769492
-rand 11377902
-rand 113
-rand 11692590
-rand 8984592
-rand 62804
-rand 34
-rand 34
-rand 874651
-rand 35
-rand 36
-rand 706
-rand 594
-rand 201
-rand 5090234
-rand 3199669
-rand 76
-rand 335
-rand 24
-rand 933941
-rand 40958
-rand 7113279
-rand 8200583
-rand 8312077
-rand 88016
-rand 345216
-rand 1364
-rand 64
-rand 13
-rand 4435554
-rand 6
-rand 2558
-rand 22
-rand 42243
-rand 143
-rand 5495811
-rand 33
-rand 2112251
-rand 4676979
-rand 17
-rand 69
-rand 158
-rand 12132663
-rand 6121999
-rand 12104500
-rand 11615869
-rand 13
-rand 97
-rand 392
-rand 1088032
-rand 7
-rand 58434
-rand 97
-rand 60
-rand 182273
-rand 3355011
-rand 18
-rand 3
-rand 8936014
-rand 151
-rand 160
-rand 517
-rand 9844751
-rand 2
-rand 29
-rand 10712723
-rand 33
-rand 11665379
-rand 2
-rand 3428336
-rand 7
-rand 12495966
-rand 7081941
-rand 56
-rand 12237305
-rand 98
-rand 200
-rand 9195908
-rand 65
-rand 10165
-rand 73
-rand 8354406
-rand 3246
-rand 72
-rand 13
-rand 97
-rand 4122610
-rand 8968066
-rand 36
-rand 147492
-rand 12
-rand 10606747
-rand 2961
-rand 4
-rand 12296751
-rand 8927
-rand 47
-rand 147
-rand 4
-rand 10
-rand 7
-rand 17
-rand 66
-rand 43
-rand 32664
-rand 12
-rand 6
-rand 73
-rand 831
-rand 988229
-rand 88
-rand 11269125
-rand 91
-rand 80
-rand 62
-rand 1407057
-rand 20
-rand 258737
-rand 12322756
-rand 65
-rand 8
-rand 9
-rand 40681
-rand 3837994
-rand 42
-rand 42666
-rand 373435
-rand 8200583
-rand 46150
-rand 8
-rand 10358294
-rand 1027174
-rand 909174
-rand 102
-rand 12562335
-rand 70
-rand 182273
-rand 5319
-rand 124767
-rand 5476300
-rand 70
-rand 2727562
-rand 31664
-rand 12470205
-rand 12557164
-rand 26
-rand 61
-rand 70
-rand 12
-rand 9206346
-rand 65537
-rand 10240172
-rand 344
-rand 933941
-rand 7
-rand 8936014
-rand 1536817
-rand 4482824
-rand 84
-rand 40
-rand 4
-rand 3870419
-rand 11194118
-rand 52
-rand 284843
-rand 9925062
-rand 187
-rand 3
-rand 3002
-rand 150000
-rand 100
-rand 60
-rand 2908620
-rand 30
-rand 187
-rand 12497613
-rand 2112
-rand 129
-rand 808618
-rand 14
-rand 111
-rand 153
-rand 99
-rand 12475795
-rand 6874483
-rand 9233609
-rand 8186720
-rand 69
-rand 102
-rand 2112251
-rand 35
-rand 46
-rand 61
-rand 128
-rand 57
-rand 7987010
-rand 11753703
-rand 45
-rand 83
-rand 191
-rand 28
-rand 344
-rand 5163347
-rand 793
-rand 47
-rand 1276031
-rand 11243565
-rand 20001
-rand 227184
-rand 34
-rand 2531
-rand 2734204
-rand 9
-rand 1725271
-rand 50
-rand 243
-rand 482
-rand 2187601
-rand 79
-rand 12750000
-rand 2357700
-rand 6010476
-rand 91
-rand 42
-rand 1341
-rand 38
-rand 19
-rand 11891703
-rand 40
-rand 89
-rand 14
-rand 54294
-rand 86
-rand 19841
-rand 10165
-rand 1724237
-rand 43499
-rand 390374
-rand 6010476
-rand 4869771
-rand 12
-rand 12
-rand 1556922
-rand 2
-rand 168
-rand 12068641
-rand 5
-rand 4409197
-rand 86894
-rand 12278
-rand 21
-rand 3146170
-rand 98
-rand 101
-rand 2
-rand 98
-rand 30
-rand 24
-rand 2221
-rand 6665882
-rand 363533
-rand 61
-rand 348
-rand 5678759
-rand 6
-rand 10750306
-rand 18
-rand 11704625
-rand 31
-rand 672
-rand 7170701
-rand 72
-rand 106
-rand 14
-rand 532
-rand 215
-rand 40266
-rand 1660608
-rand 5829376
-rand 58
-rand 8
-rand 61
-rand 9
-rand 98
-rand 295
-rand 11812072
-rand 343
-rand 11052690
-rand 12
-rand 6419452
-rand 10768284
-rand 29
-rand 45
-rand 14
-rand 10750306
-rand 9227376
-rand 9334618
-rand 86
-rand 9195908
-rand 1422569
-rand 105
-rand 2716225
-rand 2778803
-rand 936862
-rand 41
-rand 37
-rand 149
-rand 22
-rand 70
-rand 29
-rand 27
-rand 11
-rand 106
-rand 83
-rand 2778803
-rand 30
-rand 3
-rand 19
-rand 2531
-rand 6405193
-rand 4464
-rand 8386516
-rand 96
-rand 8402497
-rand 26
-rand 3
-rand 8046038
-rand 11480154
-rand 127
-rand 8626434
-rand 9572151
-rand 1251336
-rand 18
-rand 11682276
-rand 5
-rand 5
-rand 200
-rand 1
-rand 2727562
-rand 4285
-rand 20230
-rand 21
-rand 2
-rand 16
-rand 62
-rand 8852153
-rand 9508
-rand 31381
-rand 1945069
-rand 2
-rand 38
-rand 162
-rand 16
-rand 7719458
-rand 5340527
-rand 42
-rand 2273565
-rand 7484033
-rand 636
-rand 9537602
-rand 8098258
-rand 8849025
-rand 22
-rand 14
-rand 766
-rand 6026232
-rand 10345246
-rand 34
-rand 8354406
-rand 30
-rand 34
-rand 10626960
-rand 10190065
-rand 82
-rand 13
-rand 102
-rand 180
-rand 8887914
-rand 2727562
-rand 9815378
-rand 80847
-rand 14
-rand 9212757
-rand 1891823
-rand 126
-rand 14
-rand 6276810
-rand 37
-rand 94551
-rand 264
-rand 4501842
-rand 1276031
-rand 3034861
-rand 121
-rand 1177930
-rand 18
-rand 3
-rand 10
-rand 2
-rand 19
-rand 295
-rand 10581996
-rand 11480154
-rand 2
-rand 1891823
-rand 5236828
-rand 25154
-rand 85
-rand 7206379
-rand 8530372
-rand 20
-rand 5603917
-rand 72
-rand 10581996
-rand 15
-rand 4279
-rand 5266260
-rand 12740041
-rand 21
-rand 47
-rand 348
-rand 10581996
-rand 4283124
-rand 96
-rand 11955038
-rand 75
-rand 67
-rand 2961
-rand 3
-rand 28
-rand 121
-rand 3480046
-rand 53
-rand 12196610
-rand 25
-rand 2221
-rand 45
-rand 34
-rand 3566377
-rand 66
-rand 7844
-rand 8153105
-rand 9
-rand 62
-rand 21
-rand 3480046
-rand 9964
-rand 24
-rand 28
-rand 12
-rand 197547
-rand 2
-rand 31381
-rand 2558
-rand 9195908
-rand 1
-rand 30
-rand 483496
-rand 48
-rand 12
-rand 3
-rand 7
-rand 9258911
-rand 11769492
-rand 8
-rand 31
-rand 8104765
-rand 24
-rand 5435264
-rand 874651
-rand 6222500
-rand 65536
-rand 55
-rand 2404414
-rand 2187601
-rand 32
-rand 864
-rand 6207671
-rand 17
-rand 59
-rand 101
-rand 9104623
-rand 103
-rand 20230
-rand 88
-rand 35
-rand 6535982
-rand 18
-rand 6098138
-rand 12
-rand 1513
-rand 47
-rand 9011796
-rand 1690450
-rand 78
-rand 75
-rand 3870419
-rand 27
-rand 24
-rand 5321902
-rand 17
-rand 38
-rand 5090234
-rand 112
-rand 70
-rand 12196610
-rand 4502
-rand 11
-rand 42
-rand 110
-rand 1321
-rand 417
-rand 121
-rand 9537602
-rand 348
-rand 12470205
-rand 55
-rand 83
-rand 5987211
-rand 19
-rand 9714120
-rand 3837994
-rand 4435554
-rand 7206379
-rand 35
-rand 5678759
-rand 914
-rand 8
-rand 1
-rand 909174
-rand 48
-rand 1177930
-rand 9925062
-rand 127
-rand 12562335
-rand 1146793
-rand 26
-rand 6516854
-rand 5266260
-rand 23
-rand 49
-rand 605
-rand 6437874
-rand 1
-rand 3080
-rand 9513050
-rand 4879176
-rand 6807478
-rand 271
-rand 98
-rand 3849680
-rand 1
-rand 53
-rand 12481798
-rand 20
-rand 7
-rand 3146170
-rand 5
-rand 1127053
-rand 6650898
-rand 2666651
-rand 40
-rand 10
-rand 223
-rand 9609
-rand 54
-rand 100783
-rand 2
-rand 62
-rand 8855
-rand 97
-rand 78
-rand 22
-rand 11
-rand 111
-rand 83
-rand 6068389
-rand 83
-rand 1299
-rand 4
-rand 17
-rand 234
-rand 4085364
-rand 9
-rand 20892
-rand 12750000
-rand 9267597
-rand 17
-rand 15
-rand 156
-rand 62
-rand 4919437
-rand 10913441
-rand 6807478
-rand 124
-rand 4676979
-rand 4154238
-rand 56
-rand 104736
-rand 8388609
-rand 925
-rand 6666163
-rand 25
-rand 3806
-rand 287
-rand 12132663
-rand 30
-rand 2373637
-rand 12
-rand 20
-rand 35
-rand 4
-rand 35
-rand 55
-rand 32
-rand 303
-rand 896405
-rand 7160178
-rand 84
-rand 112
-rand 74
-rand 11077281
-rand 12
-rand 127
-rand 539
-rand 10160745
-rand 2939
-rand 363533
-rand 599
-rand 74
-rand 6300126
-rand 50986
-rand 4153
-rand 2988880
-rand 17
-rand 3
-rand 13
-rand 4
-rand 1725271
-rand 49
-rand 166581
-rand 121
-rand 5504497
-rand 50265
-rand 74
-rand 4285
-rand 7
-rand 83
-rand 6537143
-rand 5842478
-rand 3566377
-rand 8
-rand 98
-rand 8153105
-rand 7
-rand 367453
-rand 2411415
-rand 151
-rand 65
-rand 30
-rand 13472
-rand 111
-rand 44092
-rand 35
-rand 5163347
-rand 92
-rand 12388010
-rand 3410980
-rand 864
-rand 21
-rand 22
-rand 7530944
-rand 12068641
-rand 30
-rand 72
-rand 99
-rand 26
-rand 280
-rand 2348244
-rand 6971786
-rand 18
-rand 2
-rand 62
-rand 12
-rand 9
-rand 2734204
-rand 28
-rand 59
-rand 44
-rand 3056
-rand 7317463
-rand 221728
-rand 35
-rand 5333884
-rand 10872489
-rand 5685527
-rand 42666
-rand 234
-rand 81724
-rand 23
-rand 21
-rand 52
-rand 10157974
-rand 121
-rand 6300126
-rand 2812046
-rand 7697976
-rand 11603080
-rand 4165738
-rand 35
-rand 3026691
-rand 63
-rand 64
-rand 37
-rand 60
-rand 10
-rand 133
-rand 149
-rand 60
-rand 126
-rand 2734204
-rand 89
-rand 57
-rand 126
-rand 9383727
-rand 348
-rand 46
-rand 9266356
-rand 7589216
-rand 83
-rand 636
-rand 14
-rand 92
-rand 48
-rand 6
-rand 24
-rand 19
-rand 114032
-rand 98
-rand 4339731
-rand 2
-rand 45002
-rand 7464904
-rand 8
-rand 2920
-rand 6351170
-rand 4501842
-rand 2373637
-rand 7550992
-rand 9737483
-rand 84856
-rand 52
-rand 7346472
-rand 7
-rand 16
-rand 8591533
-rand 19
-rand 7347887
-rand 168
-rand 100
-rand 61
-rand 86
-rand 12
-rand 7760989
-rand 53
-rand 417
-rand 9240157
-rand 48458
-rand 10
-rand 90
-rand 124767
-rand 3
-rand 4630694
-rand 11465766
-rand 9250568
-rand 33
-rand 1088032
-rand 33
-rand 89
-rand 7580178
-rand 46
-rand 46
-rand 72
-rand 17
-rand 599
-rand 75
-rand 16
-rand 12337558
-rand 11187797
-rand 93
-rand 9206346
-rand 4179019
-rand 16
-rand 6334376
-rand 24
-rand 8855
-rand 17
-rand 9513050
-rand 2613
-rand 1404196
-rand 3612
-rand 34
-rand 243
-rand 12
-rand 80
-rand 5943602
-rand 10872489
-rand 64
-rand 65
-rand 1404196
-rand 3962
-rand 3566377
-rand 35
-rand 6729097
-rand 10
-rand 64
-rand 29
-rand 2
-rand 6419452
-rand 72993
-rand 4
-rand 20431
-rand 11966280
-rand 40
-rand 70
-rand 8
-rand 8052
-rand 10334136
-rand 2
-rand 12311638
-rand 11431440
-rand 622990
-rand 1294353
-rand 4257934
-rand 4700516
-rand 20230
-rand 36712
-rand 200
-rand 16
-rand 2971410
-rand 392
-rand 1
-rand 48
-rand 234
-rand 4501
-rand 9267597
-rand 45895
-rand 17
-rand 8
-rand 13
-rand 1422569
-rand 11882945
-rand 10712723
-rand 10328025
-rand 127001
-rand 20
-rand 106
-rand 62804
-rand 10334136
-rand 1513
-rand 9761368
-rand 28
-rand 17
-rand 295
-rand 50
-rand 57
-rand 30
-rand 8140669
-rand 6
-rand 72
-rand 6874483
-rand 10
-rand 4468286
-rand 79
-rand 50
-rand 75
-rand 8
-rand 9072657
-rand 42
-rand 97
-rand 605
-rand 65
-rand 14
-rand 86894
-rand 5560058
-rand 5943602
-rand 234
-rand 11150426
-rand 16
-rand 24242
-rand 92
-rand 5
-rand 38
-rand 6437874
-rand 39
-rand 2963
-rand 55
-rand 24
-rand 1
-rand 622990
-rand 593023
-rand 4729742
-rand 40
-rand 3
-rand 22
-rand 118
-rand 630856
-rand 1807
-rand 91
-rand 1
-rand 3131217
-rand 96
-rand 1104224
-rand 112
-rand 5
-rand 1
-rand 3
-rand 9437623
-rand 19
-rand 30
-rand 26145
-rand 1035599
-rand 6614087
-rand 15
-rand 62
-rand 12481798
-rand 14
-rand 8957
-rand 69228
-rand 6874330
-rand 33
-rand 7336370
-rand 38
-rand 14
-rand 6538114
-rand 37
-rand 5476300
-rand 271
-rand 6
-rand 22
-rand 49256
-rand 62
-rand 6001724
-rand 112
-rand 7581961
-rand 8
-rand 50
-rand 9831077
-rand 303
-rand 46150
-rand 3
-rand 1035599
-rand 25
-rand 7
-rand 90344
-rand 126
-rand 12
-rand 4484470
-rand 29
-rand 4464
-rand 11603080
-rand 1
-rand 10240840
-rand 8
-rand 874651
-rand 3901913
-rand 11375145
-rand 517
-rand 19
-rand 37
-rand 187
-rand 60
-rand 6
-rand 11194118
-rand 94551
-rand 8725874
-rand 126
-rand 23
-rand 9781
-rand 9
-rand 6448822
-rand 7
-rand 18
-rand 34295
-rand 7775376
-rand 9258911
-rand 23
-rand 7968792
-rand 31631
-rand 65
-rand 7256313
-rand 9
-rand 7844
-rand 1
-rand 47
-rand 10768284
-rand 766
-rand 39
-rand 73
-rand 7530944
-rand 7589216
-rand 179
-rand 9252996
-rand 19
-rand 8909696
-rand 8010136
-rand 33
-rand 73
-rand 2
-rand 149996
-rand 66
-rand 88
-rand 92
-rand 19
-rand 12132663
-rand 76
-rand 137
-rand 19
-rand 31381
-rand 9544522
-rand 72
-rand 4378773
-rand 47
-rand 1309755
-rand 1945069
-rand 110
-rand 208
-rand 149996
-rand 42063
-rand 10495503
-rand 43015
-rand 3612
-rand 5
-rand 207233
-rand 22068
-rand 43759
-rand 12475795
-rand 22
-rand 9118537
-rand 39
-rand 12237305
-rand 106
-rand 19
-rand 6537143
-rand 6341176
-rand 28
-rand 20001
-rand 2666198
-rand 38
-rand 86
-rand 10828631
-rand 13
-rand 264
-rand 9781
-rand 98528
-rand 11615869
-rand 4910268
-rand 5
-rand 270
-rand 121
-rand 32767
-rand 46150
-rand 6
-rand 594
-rand 6367060
-rand 6031
-rand 5439266
-rand 101
-rand 11753703
-rand 117
-rand 56
-rand 11533181
-rand 12278
-rand 2038133
-rand 9964
-rand 43
-rand 19712
-rand 17
-rand 75
-rand 25
-rand 10190065
-rand 9024296
-rand 33
-rand 1
-rand 17
-rand 147492
-rand 4191911
-rand 5678759
-rand 2558
-rand 3246
-rand 19
-rand 39
-rand 787
-rand 999
-rand 32
-rand 238
-rand 1000
-rand 40
-rand 66
-rand 127
-rand 30
-rand 4194305
-rand 158
-rand 83
-rand 64
-rand 8815117
-rand 10972419
-rand 22
-rand 3
-rand 118
-rand 4285
-rand 303
-rand 9327215
-rand 15
-rand 64
-rand 36
-rand 46
-rand 10
-rand 14
-rand 40
-rand 179
-rand 10
-rand 200
-rand 28
-rand 1725271
-rand 244
-rand 1146793
-rand 14
-rand 6848864
-rand 15001
-rand 8
-rand 7550992
-rand 7302004
-rand 2502226
-rand 363
-rand 45002
-rand 57
-rand 715686
-rand 363
-rand 44
-rand 7550992
-rand 56
-rand 15
-rand 133
-rand 13
-rand 12750000
-rand 8354406
-rand 404996
-rand 92
-rand 26
-rand 1
-rand 208
-rand 83
-rand 38
-rand 7835
-rand 301
-rand 19
-rand 8386516
-rand 38
-rand 8319808
-rand 72
-rand 21
-rand 111
-rand 75
-rand 10661854
-rand 6
-rand 2768622
-rand 10
-rand 180
-rand 8
-rand 5746284
-rand 41
-rand 4819194
-rand 35
-rand 2922967
-rand 7
-rand 28
-rand 45
-rand 244
-rand 1
-rand 9958991
-rand 150000
-rand 8
-rand 143
-rand 21
-rand 8
-rand 15
-rand 14
-rand 4
-rand 1891823
-rand 539
-rand 37
-rand 79
-rand 4847812
-rand 57
-rand 55
-rand 2920
-rand 12737683
-rand 2357700
-rand 933941
-rand 19
-rand 84856
-rand 142
-rand 11568712
-rand 7640917
-rand 1104224
-rand 28
-rand 5085110
-rand 18
-rand 3
-rand 153
-rand 198
-rand 8661286
-rand 18
-rand 6
-rand 11055603
-rand 40000
-rand 12
-rand 6614087
-rand 295
-rand 323
-rand 126
-rand 9913614
-rand 4090454
-rand 10364392
-rand 192435
-rand 6982212
-rand 4090454
-rand 9117078
-rand 120
-rand 29424
-rand 34295
-rand 126
-rand 10795778
-rand 1848010
-rand 54
-rand 150
-rand 13
-rand 33
-rand 5603917
-rand 857
-rand 29424
-rand 7263698
-rand 7302004
-rand 48
-rand 49
-rand 4
-rand 1
-rand 3480046
-rand 12
-rand 61
-rand 97
-rand 59
-rand 40
-rand 343
-rand 7822684
-rand 66163
-rand 4501842
-rand 3101290
-rand 4117563
-rand 348
-rand 28
-rand 11628686
-rand 37
-rand 25154
-rand 21801
-rand 775
-rand 3
-rand 7
-rand 26591
-rand 150
-rand 42
-rand 2
-rand 8667342
-rand 103
-rand 40958
-rand 9513050
-rand 1556922
-rand 12237305
-rand 17
-rand 93
-rand 3917978
-rand 11692590
-rand 29
-rand 30
-rand 25
-rand 6571310
-rand 2196109
-rand 47
-rand 21
-rand 1807
-rand 8530372
-rand 3131217
-rand 14
-rand 10190065
-rand 6222500
-rand 280
-rand 793584
-rand 5057643
-rand 9843592
-rand 8169241
-rand 82
-rand 14
-rand 12
-rand 71
-rand 7206379
-rand 7630642
-rand 93
-rand 69
-rand 9843592
-rand 50
-rand 52
-rand 10722467
-rand 9252996
-rand 12
-rand 92
-rand 3131217
-rand 2988880
-rand 4468286
-rand 97
-rand 5462308
-rand 416301
-rand 3197202
-rand 147
-rand 9761368
-rand 11194118
-rand 5987211
-rand 9104623
-rand 27
-rand 83
-rand 3
-rand 75
-rand 6
-rand 7604271
-rand 46
-rand 30
-rand 211
-rand 7268298
-rand 7530944
-rand 24
-rand 7640917
-rand 11769492
-rand 1294353
-rand 40
-rand 399419
-rand 2666651
-rand 22
-rand 149996
-rand 19
-rand 5
-rand 60
-rand 10678736
-rand 2107665
-rand 82
-rand 25
-rand 244
-rand 80
-rand 14
-rand 8200583
-rand 8293590
-rand 16
-rand 17
-rand 1897426
-rand 5
-rand 141
-rand 29
-rand 97
-rand 3962
-rand 4
-rand 78
-rand 19
-rand 206
-rand 2
-rand 36
-rand 3891154
-rand 1341
-rand 4474881
-rand 97
-rand 8637797
-rand 1104224
-rand 46
-rand 4468286
-rand 23
-rand 133
-rand 81724
-rand 6098138
-rand 179
-rand 35
-rand 7895200
-rand 11272836
-rand 168
-rand 4643372
-rand 9488575
-rand 75
-rand 277
-rand 1127053
-rand 111
-rand 8608697
-rand 9714120
-rand 25
-rand 46150
-rand 15
-rand 7206379
-rand 4842026
-rand 303
-rand 44
-rand 793
-rand 88
-rand 41
-rand 12481798
-rand 4872285
-rand 11080193
-rand 3
-rand 6260138
-rand 5170
-rand 179
-rand 344
-rand 16
-rand 126
-rand 19
-rand 17
-rand 73
-rand 11505019
-rand 3787131
-rand 67
-rand 89
-rand 111
-rand 7081941
-rand 83
-rand 29
-rand 100001
-rand 12217517
-rand 4435554
-rand 1378
-rand 3034861
-rand 2768622
-rand 88446
-rand 72993
-rand 8
-rand 94551
-rand 5
-rand 8255116
-rand 8
-rand 8704491
-rand 9227376
-rand 50265
-rand 10328025
-rand 27
-rand 11203469
-rand 76
-rand 12311638
-rand 8908641
-rand 7
-rand 211
-rand 121
-rand 9513050
-rand 76
-rand 4
-rand 399419
-rand 5080329
-rand 9722339
-rand 4154238
-rand 6538114
-rand 92
-rand 1
-rand 24
-rand 593023
-rand 6
-rand 5746284
-rand 146
-rand 25
-rand 48
-rand 4872285
-rand 30
-rand 12681575
-rand 29
-rand 2531
-rand 4502
-rand 13
-rand 5028827
-rand 8637797
-rand 7517
-rand 10
-rand 636
-rand 80
-rand 28
-rand 34
-rand 21
-rand 62
-rand 150
-rand 3
-rand 3647044
-rand 179
-rand 46
-rand 78
-rand 80
-rand 13
-rand 257
-rand 6
-rand 6982212
-rand 3009809
-rand 10957978
-rand 12643352
-rand 9386522
-rand 14
-rand 88
-rand 10322088
-rand 323
-rand 45
-rand 8312077
-rand 6535982
-rand 16
-rand 40
-rand 70
-rand 133
-rand 37
-rand 8852153
-rand 2
-rand 2558
-rand 49
-rand 599
-rand 4
-rand 3480046
-rand 7822684
-rand 12012157
-rand 60
-rand 85
-rand 5507646
-rand 44
-rand 120
-rand 4879176
-rand 9572151
-rand 16
-rand 277
-rand 152
-rand 31381
-rand 114
-rand 10828631
-rand 94
-rand 9537602
-rand 3
-rand 8
-rand 3
-rand 5980383
-rand 4145976
-rand 9423176
-rand 19
-rand 1848010
-rand 112
-rand 6
-rand 8849025
-rand 56
-rand 197
-rand 7170701
-rand 14
-rand 18
-rand 2
-rand 94
-rand 241277
-rand 312
-rand 102
-rand 19712
-rand 5704779
-rand 43759
-rand 4819194
-rand 9383727
-rand 68
-rand 9925062
-rand 62459
-rand 6671839
-rand 104
-rand 5
-rand 20
-rand 175
-rand 12114013
-rand 1879781
-rand 39
-rand 58434
-rand 12243492
-rand 44
-rand 2668
-rand 62
-rand 12497613
-rand 36
-rand 24
-rand 9369031
-rand 7844
-rand 9011796
-rand 20
-rand 1556922
-rand 9722339
-rand 93
-rand 84
-rand 31
-rand 5454699
-rand 55
-rand 61
-rand 9
-rand 17
-rand 97
-rand 3355941
-rand 43
-rand 24
-rand 5746284
-rand 28438
-rand 3852134
-rand 21
-rand 20
-rand 22
-rand 24
-rand 8
-rand 97
-rand 232
-rand 149
-rand 28
-rand 7
-rand 6
-rand 33
-rand 4
-rand 243
-rand 11891703
-rand 11636283
-rand 39
-rand 1
-rand 14
-rand 258737
-rand 4
-rand 32
-rand 9508
-rand 9533217
-rand 5
-rand 41
-rand 27
-rand 5028827
-rand 9516481
-rand 29
-rand 2888605
-rand 20
-rand 27
-rand 16
-rand 2988880
-rand 4179019
-rand 8
-rand 30
-rand 5763063
-rand 64
-rand 8388607
-rand 166581
-rand 8098258
-rand 75
-rand 11150426
-rand 101
-rand 9359280
-rand 4283124
-rand 178
-rand 3
-rand 54
-rand 1945069
-rand 40681
-rand 33
-rand 8968066
-rand 6665882
-rand 3352750
-rand 4773826
-rand 45895
-rand 1496
-rand 133
-rand 97
-rand 138
-rand 51
-rand 6749022
-rand 197
-rand 57
-rand 13
-rand 3076460
-rand 11077281
-rand 6711837
-rand 40266
-rand 5757439
-rand 11830128
-rand 16
-rand 251
-rand 37
-rand 1
-rand 6650898
-rand 808618
-rand 33
-rand 9533217
-rand 47
-rand 7336370
-rand 8709434
-rand 4729742
-rand 126
-rand 239
-rand 208
-rand 1
-rand 4476
-rand 14
-rand 44
-rand 28
-rand 5698640
-rand 42063
-rand 97
-rand 18
-rand 70
-rand 24
-rand 46
-rand 2
-rand 21
-rand 69
-rand 17
-rand 270
-rand 66163
-rand 3001
-rand 3080
-rand 11966280
-rand 287
-rand 5
-rand 12388010
-rand 5
-rand 79
-rand 21
-rand 14
-rand 78
-rand 180368
-rand 97
-rand 89
-rand 31463
-rand 7760447
-rand 20
-rand 48
-rand 5
-rand 1840
-rand 99
-rand 8098258
-rand 50
-rand 28
-rand 9925062
-rand 2178306
-rand 7640917
-rand 8010136
-rand 43
-rand 128
-rand 61
-rand 9359280
-rand 30102
-rand 5495811
-rand 2
-rand 11830128
-rand 60
-rand 5
-rand 3458418
-rand 168
-rand 3076460
-rand 11033775
-rand 70
-rand 22
-rand 18
-rand 12054043
-rand 4869771
-rand 345216
-rand 8
-rand 11769492
-rand 244
-rand 19
-rand 4827901
-rand 3
-rand 5745785
-rand 458667
-rand 8581853
-rand 6
-rand 9127020
-rand 14
-rand 93549
-rand 13
-rand 81
-rand 10
-rand 239
-rand 31631
-rand 295
-rand 2613
-rand 26
-rand 21801
-rand 4
-rand 48
-rand 630856
-rand 5
-rand 10913441
-rand 154
-rand 6540066
-rand 72
-rand 32
-rand 35
-rand 25
-rand 5319
-rand 26
-rand 8010136
-rand 166581
-rand 34
-rand 14
-rand 32768
-rand 197547
-rand 2877
-rand 10872489
-rand 9206346
-rand 9
-rand 3480046
-rand 39
-rand 16
-rand 3355941
-rand 48
-rand 33
-rand 32
-rand 46150
-rand 30961
-rand 14
-rand 49
-rand 6783778
-rand 57
-rand 6276810
-rand 8010136
-rand 212
-rand 338
-rand 57
-rand 39
-rand 28
-rand 3355941
-rand 10795778
-rand 7336370
-rand 1404196
-rand 117
-rand 19
-rand 28
-rand 1144647
-rand 4547965
-rand 6
-rand 53
-rand 73
-rand 32
-rand 14
-rand 6
-rand 7619883
-rand 3480046
-rand 2174328
-rand 9
-rand 21
-rand 4
-rand 50000
-rand 20230
-rand 23
-rand 93
-rand 5454699
-rand 3
-rand 32
-rand 198
-rand 1
-rand 64
-rand 3867
-rand 44092
-rand 66
-rand 197
-rand 90
-rand 11
-rand 1
-rand 1276031
-rand 4
-rand 7697976
-rand 150002
-rand 83
-rand 3428336
-rand 160
-rand 79
-rand 79
-rand 373435
-rand 164
-rand 62
-rand 35
-rand 111
-rand 57
-rand 78
-rand 18
-rand 925
-rand 36
-rand 2734204
-rand 5507646
-rand 12
-rand 41
-rand 126
-rand 49810
-rand 4468286
-rand 10
-rand 140644
-rand 130
-rand 2222240
-rand 21
-rand 200
-rand 197
-rand 57
-rand 126
-rand 111453
-rand 57
-rand 76
-rand 65537
-rand 2502226
-rand 1294353
-rand 8849025
-rand 52
-rand 5266260
-rand 82
-rand 79
-rand 11
-rand 914
-rand 6
-rand 5100758
-rand 4436923
-rand 4
-rand 8386516
-rand 17
-rand 46
-rand 7732706
-rand 4347823
-rand 4179019
-rand 118
-rand 74
-rand 172
-rand 14
-rand 55
-rand 6650898
-rand 11147193
-rand 11243565
-rand 11377902
-rand 21
-rand 41
-rand 8388609
-rand 4
-rand 5722253
-rand 110
-rand 172
-rand 11505205
-rand 40
-rand 117
-rand 21
-rand 59
-rand 7873886
-rand 92
-rand 1516
-rand 82
-rand 5753
-rand 914
-rand 8307631
-rand 10433374
-rand 4339731
-rand 6538114
-rand 2727562
-rand 2
-rand 92
-rand 149
-rand 23
-rand 5610729
-rand 9359280
-rand 10957978
-rand 14
-rand 23
-rand 43
-rand 6807478
-rand 11133504
-rand 97
-rand 8
-rand 121
-rand 75
-rand 5267141
-rand 4643372
-rand 7
-rand 12562335
-rand 118
-rand 9227376
-rand 41
-rand 12
-rand 11
-rand 12104500
-rand 6
-rand 2922967
-rand 42
-rand 1890532
-rand 24
-rand 8725874
-rand 2536534
-rand 72
-rand 6224
-rand 126
-rand 19
-rand 4735266
-rand 27
-rand 3180268
-rand 12
-rand 3
-rand 22
-rand 1516
-rand 7844
-rand 121
-rand 8335517
-rand 67488
-rand 96
-rand 7895200
-rand 10
-rand 893795
-rand 179
-rand 49256
-rand 60231
-rand 4869771
-rand 3
-rand 148739
-rand 241277
-rand 16
-rand 9544522
-rand 85
-rand 101
-rand 8482786
-rand 11243565
-rand 290047
-rand 129
-rand 2273565
-rand 92
-rand 8707305
-rand 7640917
-rand 4435554
-rand 28
-rand 1696900
-rand 1
-rand 241277
-rand 5980383
-rand 60
-rand 97
-rand 1
-rand 4
-rand 6729097
-rand 6
-rand 84
-rand 5969831
-rand 60
-rand 11900998
-rand 48
-rand 8
-rand 5603917
-rand 64
-rand 4347823
-rand 7
-rand 28
-rand 6
-rand 12470205
-rand 7
-rand 8840303
-rand 3
-rand 9007
-rand 91
-rand 9206346
-rand 23
-rand 11606057
-rand 160
-rand 5100758
-rand 14
-rand 19
-rand 33
-rand 2862368
-rand 53
-rand 6853305
-rand 10361549
-rand 449565
-rand 6
-rand 147
-rand 49
-rand 5
-rand 27
-rand 8388608
-rand 3870419
-rand 363533
-rand 1496
-rand 6121999
-rand 207233
-rand 24
-rand 12
-rand 75
-rand 38
-rand 107
-rand 4606595
-rand 3
-rand 18
-rand 137
-rand 73
-rand 40
-rand 18
-rand 1
-rand 54
-rand 5755554
-rand 7484033
-rand 89
-rand 367453
-rand 113
-rand 10678736
-rand 19
-rand 3
-rand 48458
-rand 97
-rand 18
-rand 9658709
-rand 543757
-rand 126834
-rand 1420699
-rand 1188660
-rand 10
-rand 120
-rand 9118537
-rand 36
-rand 13
-rand 4047
-rand 12557164
-rand 8388608
-rand 54
-rand 181
-rand 3
-rand 7888319
-rand 10358294
-rand 3612
-rand 5319
-rand 17
-rand 87
-rand 7788
-rand 9118537
-rand 8887914
-rand 8153105
-rand 4085364
-rand 4
-rand 3002
-rand 40681
-rand 11077281
-rand 31381
-rand 4643372
-rand 7674675
-rand 10972419
-rand 227184
-rand 9080007
-rand 103
-rand 3625920
-rand 4643372
-rand 96
-rand 55
-rand 4
-rand 15
-rand 200
-rand 8160596
-rand 40
-rand 11033775
-rand 72993
-rand 4502
-rand 7589216
-rand 11243565
-rand 89
-rand 191
-rand 113
-rand 109
-rand 6807478
-rand 11900998
-rand 102
-rand 9722339
-rand 2273565
-rand 3
-rand 92
-rand 17
-rand 25
-rand 9992650
-rand 53
-rand 47
-rand 4436923
-rand 90
-rand 2
-rand 18
-rand 7697976
-rand 50001
-rand 28
-rand 6783778
-rand 10
-rand 75262
-rand 75262
-rand 1729969
-rand 5504497
-rand 1321
-rand 2888605
-rand 4700516
-rand 3180268
-rand 150
-rand 100
-rand 45895
-rand 150001
-rand 6729097
-rand 8
-rand 8626434
-rand 113
-rand 111528
-rand 7640917
-rand 86
-rand 264220
-rand 9194782
-rand 4
-rand 3867
-rand 158
-rand 9386522
-rand 19
-rand 9853776
-rand 84
-rand 7835
-rand 4122610
-rand 78
-rand 35
-rand 83
-rand 152
-rand 55
-rand 4484470
-rand 11
-rand 16
-rand 8
-rand 218310
-rand 30
-rand 6537143
-rand 14
-rand 17
-rand 17
-rand 11465766
-rand 2
-rand 24
-rand 25
-rand 4341424
-rand 6334376
-rand 7674675
-rand 47
-rand 28
-rand 4700516
-rand 42243
-rand 1146793
-rand 6853305
-rand 11812072
-rand 12068641
-rand 3352750
-rand 8312077
-rand 10495503
-rand 6571310
-rand 629
-rand 70
-rand 11769492
-rand 312
-rand 312
-rand 3631059
-rand 4319756
-rand 8307631
-rand 17922
-rand 619707
-rand 4656719
-rand 4
-rand 1401371
-rand 40266
-rand 23
-rand 69
-rand 170
-rand 6
-rand 7651801
-rand 38
-rand 140644
-rand 4502
-rand 12117984
-rand 7
-rand 36
-rand 3
-rand 47
-rand 3691579
-rand 298
-rand 1
-rand 539
-rand 11213241
-rand 150000
-rand 12495966
-rand 9369031
-rand 34
-rand 8815117
-rand 7822684
-rand 323
-rand 56
-rand 344
-rand 2613
-rand 7517
-rand 42
-rand 7719458
-rand 21
-rand 1
-rand 44
-rand 28
-rand 6448822
-rand 10165
-rand 9104623
-rand 212
-rand 150000
-rand 5678759
-rand 12337558
-rand 15000
-rand 20001
-rand 3901913
-rand 14
-rand 21
-rand 9212757
-rand 31
-rand 46
-rand 5267141
-rand 92
-rand 47
-rand 17
-rand 344
-rand 55
-rand 318
-rand 2877
-rand 52
-rand 51
-rand 5745785
-rand 80
-rand 5
-rand 70
-rand 9958991
-rand 2438011
-rand 80461
-rand 19
-rand 18
-rand 133
-rand 5
-rand 13
-rand 5227146
-rand 7580178
-rand 239
-rand 47
-rand 120
-rand 8707305
-rand 127001
-rand 8180968
-rand 39
-rand 38
-rand 1660608
-rand 4
-rand 97
-rand 4606595
-rand 15733
-rand 696673
-rand 16
-rand 4842026
-rand 55
-rand 6448822
-rand 2427114
-rand 3
-rand 61
-rand 12
-rand 10581996
-rand 78
-rand 11147193
-rand 51
-rand 8968066
-rand 39
-rand 5100758
-rand 42
-rand 1
-rand 6260138
-rand 38
-rand 6982212
-rand 2758
-rand 4191911
-rand 5
-rand 56
-rand 36712
-rand 11277913
-rand 10913441
-rand 98
-rand 80
-rand 5
-rand 6
-rand 37
-rand 11882945
-rand 8927
-rand 48
-rand 6419452
-rand 150000
-rand 3917978
-rand 22
-rand 156
-rand 14
-rand 114
-rand 4153
-rand 4218852
-rand 33
-rand 1
-rand 651
-rand 9913614
-rand 35
-rand 36
-rand 63
-rand 18
-rand 4847812
-rand 45
-rand 6538114
-rand 9508
-rand 18
-rand 18
-rand 4847812
-rand 4484470
-rand 9390884
-rand 8388607
-rand 11812072
-rand 12497613
-rand 2174328
-rand 6
-rand 6697934
-rand 816606
-rand 8581853
-rand 14
-rand 5
-rand 98
-rand 30
-rand 3001
-rand 83
-rand 50
-rand 290047
-rand 3821099
-rand 11017181
-rand 6405193
-rand 14
-rand 8
-rand 1378
-rand 97
-rand 8849025
-rand 7775376
-rand 1313
-rand 3417418
-rand 8855
-rand 6671839
-rand 10913441
-rand 46
-rand 9072657
-rand 6697934
-rand 14
-rand 465
-rand 51
-rand 28
-rand 7619883
-rand 60
-rand 84
-rand 1313
-rand 3
-rand 83
-rand 56
-rand 17
-rand 5
-rand 6665882
-rand 4
-rand 5
-rand 5389611
-rand 12279510
-rand 12737346
-rand 6405193
-rand 61
-rand 49
-rand 16575
-rand 127
-rand 75513
-rand 10
-rand 48
-rand 26
-rand 1154
-rand 138
-rand 24136
-rand 8845082
-rand 35
-rand 22
-rand 1
-rand 11
-rand 715686
-rand 9423176
-rand 101
-rand 17
-rand 11389236
-rand 93
-rand 57
-rand 8459649
-rand 65
-rand 936862
-rand 40
-rand 3
-rand 11
-rand 3199669
-rand 11686577
-rand 97
-rand 40
-rand 127
-rand 31
-rand 62
-rand 48
-rand 4047
-rand 179
-rand 67488
-rand 220
-rand 483496
-rand 155
-rand 12
-rand 9508
-rand 936862
-rand 33
-rand 88016
-rand 8
-rand 6537143
-rand 706
-rand 5143871
-rand 6
-rand 4879176
-rand 31463
-rand 2
-rand 24
-rand 10581996
-rand 28
-rand 11375145
-rand 4
-rand 12
-rand 97
-rand 1418773
-rand 169476
-rand 3625920
-rand 10190065
-rand 218310
-rand 6
-rand 6
-rand 9072657
-rand 10542698
-rand 24
-rand 41
-rand 13
-rand 33
-rand 3806
-rand 60231
-rand 6535982
-rand 2
-rand 75262
-rand 47
-rand 149996
-rand 7506227
-rand 1104224
-rand 5
-rand 127
-rand 6538114
-rand 28438
-rand 43
-rand 8
-rand 3631059
-rand 7346472
-rand 1420699
-rand 106
-rand 12
-rand 101
-rand 36
-rand 160
-rand 2812046
-rand 121
-rand 80
-rand 7
-rand 30
-rand 7484033
-rand 3026691
-rand 22068
-rand 9690506
-rand 9007
-rand 46
-rand 9884416
-rand 6749022
-rand 60
-rand 101
-rand 8459649
-rand 3146170
-rand 3355011
-rand 11608698
-rand 5462308
-rand 1270
-rand 12068641
-rand 60
-rand 30
-rand 2411415
-rand 636
-rand 51
-rand 105
-rand 5
-rand 6954778
-rand 9266356
-rand 1
-rand 82
-rand 60
-rand 12279510
-rand 4468286
-rand 258737
-rand 79
-rand 1690450
-rand 133
-rand 8
-rand 282
-rand 32
-rand 5
-rand 27
-rand 49
-rand 3
-rand 6
-rand 97
-rand 4729742
-rand 55
-rand 33
-rand 108
-rand 10433374
-rand 59
-rand 8255116
-rand 40266
-rand 16
-rand 12117984
-rand 2
-rand 517
-rand 62459
-rand 100001
-rand 27
-rand 9537602
-rand 4339731
-rand 50001
-rand 28
-rand 89
-rand 243
-rand 142
-rand 2
-rand 8681293
-rand 1422569
-rand 23
-rand 10626960
-rand 20
-rand 6
-rand 83
-rand 11480154
-rand 5969831
-rand 8354406
-rand 9227376
-rand 1270
-rand 3002
-rand 3500112
-rand 4257934
-rand 22
-rand 282
-rand 363533
-rand 12
-rand 8
-rand 92
-rand 82
-rand 5028827
-rand 2618672
-rand 2
-rand 11
-rand 147
-rand 1
-rand 32
-rand 988229
-rand 18
-rand 89
-rand 50
-rand 11
-rand 6
-rand 30
-rand 25
-rand 8160596
-rand 8388608
-rand 114
-rand 1000
-rand 100
-rand 1536817
-rand 160
-rand 5462308
-rand 42
-rand 3
-rand 80
-rand 2991435
-rand 121
-rand 39
-rand 10495503
-rand 1516
-rand 68
-rand 105
-rand 9202792
-rand 1890532
-rand 1
-rand 82
-rand 10
-rand 19
-rand 738474
-rand 10972419
-rand 7742
-rand 8704491
-rand 25
-rand 82
-rand 373435
-rand 175
-rand 83
-rand 5
-rand 1862
-rand 12750000
-rand 4936659
-rand 149996
-rand 12235330
-rand 4502
-rand 24
-rand 73
-rand 83
-rand 7263698
-rand 31631
-rand 12
-rand 5
-rand 9007
-rand 88
-rand 1462852
-rand 8681293
-rand 42063
-rand 9192442
-rand 811136
-rand 113
-rand 6448822
-rand 17922
-rand 4606595
-rand 31
-rand 5163347
-rand 78
-rand 3867
-rand 6
-rand 4482824
-rand 48458
-rand 66
-rand 8180968
-rand 61
-rand 26
-rand 13
-rand 56
-rand 57
-rand 4420161
-rand 18
-rand 6098138
-rand 60
-rand 72
-rand 2
-rand 578169
-rand 124767
-rand 1724237
-rand 1632393
-rand 25154
-rand 2796731
-rand 10507394
-rand 10240172
-rand 26145
-rand 12337558
-rand 148739
-rand 4
-rand 241277
-rand 11
-rand 6
-rand 106
-rand 102
-rand 8681293
-rand 811136
-rand 6300126
-rand 18
-rand 90
-rand 14
-rand 238
-rand 8140669
-rand 5
-rand 323
-rand 52
-rand 7
-rand 30
-rand 45895
-rand 100
-rand 2107665
-rand 56
-rand 22
-rand 47
-rand 9070928
-rand 29
-rand 142
-rand 205
-rand 84
-rand 19
-rand 11213241
-rand 11962748
-rand 40958
-rand 4154238
-rand 75
-rand 7640917
-rand 20
-rand 220
-rand 71
-rand 45
-rand 70
-rand 11383789
-rand 12622425
-rand 3002
-rand 23
-rand 7484033
-rand 2273565
-rand 9
-rand 243
-rand 10606747
-rand 143
-rand 110
-rand 89
-rand 42
-rand 153
-rand 8140669
-rand 11190
-rand 26
-rand 34
-rand 12235330
-rand 11
-rand 19
-rand 34295
-rand 9070928
-rand 1536817
-rand 112
-rand 22
-rand 25
-rand 8354406
-rand 80847
-rand 3126
-rand 94
-rand 11152938
-rand 9815378
-rand 8
-rand 864
-rand 192435
-rand 20
-rand 9011796
-rand 6121999
-rand 45
-rand 10840533
-rand 117
-rand 38
-rand 150000
-rand 9227376
-rand 1
-rand 7
-rand 12054043
-rand 7603265
-rand 8169241
-rand 9572151
-rand 7
-rand 8052
-rand 83
-rand 10364392
-rand 23
-rand 808618
-rand 33
-rand 80
-rand 4117563
-rand 13
-rand 3837994
-rand 1848010
-rand 671
-rand 7760447
-rand 38
-rand 9776538
-rand 33
-rand 831
-rand 61
-rand 2196109
-rand 4339731
-rand 30001
-rand 1
-rand 22
-rand 121
-rand 13
-rand 89
-rand 33
-rand 483496
-rand 349
-rand 1309755
-rand 8
-rand 10554399
-rand 35
-rand 8681293
-rand 11465766
-rand 47
-rand 9390884
-rand 6
-rand 1628398
-rand 8
-rand 110
-rand 137
-rand 6492190
-rand 97
-rand 5
-rand 1945069
-rand 9274601
-rand 7550992
-rand 7256313
-rand 8319808
-rand 24
-rand 9560914
-rand 4045
-rand 215
-rand 77
-rand 6271127
-rand 158
-rand 33
-rand 79
-rand 12054043
-rand 9258911
-rand 28
-rand 4
-rand 21
-rand 3500112
-rand 40001
-rand 1
-rand 3
-rand 34
-rand 4606595
-rand 21
-rand 18
-rand 62804
-rand 40958
-rand 6666163
-rand 11269863
-rand 111
-rand 23
-rand 3837994
-rand 142
-rand 12497613
-rand 11628686
-rand 6
-rand 98203
-rand 40
-rand 864
-rand 48458
-rand 6260138
-rand 87
-rand 672
-rand 11
-rand 7414296
-rand 13
-rand 392
-rand 8140669
-rand 126
-rand 126
-rand 11769492
-rand 111528
-rand 113
-rand 6351170
-rand 71
-rand 4191911
-rand 3
-rand 35
-rand 11812072
-rand 7760989
-rand 1840
-rand 12104500
-rand 4468286
-rand 44
-rand 2734204
-rand 32
-rand 6
-rand 6
-rand 192435
-rand 160
-rand 15733
-rand 8661286
-rand 98528
-rand 295
-rand 2812046
-rand 6538114
-rand 50
-rand 9127020
-rand 6
-rand 218
-rand 5434873
-rand 9611484
-rand 4773826
-rand 126
-rand 243
-rand 9
-rand 238
-rand 7256313
-rand 141
-rand 7674675
-rand 64
-rand 27
-rand 30002
-rand 53
-rand 12196610
-rand 599
-rand 3352750
-rand 13
-rand 483496
-rand 117
-rand 6200018
-rand 6200018
-rand 1420699
-rand 3631059
-rand 92
-rand 7069501
-rand 107
-rand 77
-rand 8667342
-rand 45
-rand 107
-rand 904
-rand 21
-rand 12235330
-rand 36
-rand 7732706
-rand 80
-rand 112
-rand 8388609
-rand 50
-rand 5
-rand 96
-rand 3
-rand 2
-rand 13
-rand 61
-rand 10069834
-rand 41
-rand 5476300
-rand 25
-rand 101
-rand 4122610
-rand 50
-rand 149
-rand 187
-rand 26145
-rand 24
-rand 30
-rand 4501
-rand 200
-rand 71
-rand 3480046
-rand 4863
-rand 58
-rand 5698640
-rand 78
-rand 580
-rand 16
-rand 13
-rand 13
-rand 18
-rand 10240172
-rand 3962
-rand 51
-rand 54
-rand 8
-rand 11
-rand 7506227
-rand 5236828
-rand 3962
-rand 34
-rand 13
-rand 82
-rand 48
-rand 12470205
-rand 5704779
-rand 672
-rand 3774413
-rand 22
-rand 2558
-rand 9781
-rand 102
-rand 318
-rand 30102
-rand 5
-rand 34
-rand 60231
-rand 44
-rand 197
-rand 117
-rand 10542698
-rand 3080
-rand 35
-rand 45
-rand 25
-rand 5685527
-rand 150
-rand 1
-rand 2196109
-rand 59
-rand 7211526
-rand 1144647
-rand 33
-rand 5080329
-rand 96
-rand 86894
-rand 4279
-rand 82
-rand 112470
-rand 79
-rand 2427114
-rand 19712
-rand 2988880
-rand 11719698
-rand 49
-rand 80847
-rand 10542698
-rand 9240157
-rand 30
-rand 56
-rand 12740041
-rand 108
-rand 404996
-rand 11
-rand 715686
-rand 896405
-rand 102
-rand 79
-rand 6982212
-rand 93
-rand 118
-rand 19
-rand 2
-rand 127001
-rand 512
-rand 301
-rand 12243492
-rand 86
-rand 6341176
-rand 9012979
-rand 37
-rand 187
-rand 32
-rand 36
-rand 3
-rand 6222500
-rand 3
-rand 7
-rand 7464904
-rand 17
-rand 50
-rand 223
-rand 17
-rand 65
-rand 19
-rand 21
-rand 295
-rand 75
-rand 9835640
-rand 588
-rand 47
-rand 2758
-rand 4863
-rand 12235330
-rand 619707
-rand 7170701
-rand 24
-rand 3
-rand 32
-rand 2367606
-rand 30
-rand 11615869
-rand 82
-rand 3529
-rand 343
-rand 5
-rand 2862368
-rand 301
-rand 31
-rand 3
-rand 9958991
-rand 10240840
-rand 48
-rand 41
-rand 54
-rand 44
-rand 8
-rand 6783778
-rand 9533217
-rand 6516854
-rand 6657774
-rand 335
-rand 83
-rand 30
-rand 19
-rand 65536
-rand 89
-rand 31
-rand 6807478
-rand 37
-rand 5434873
-rand 8260275
-rand 111
-rand 83
-rand 55
-rand 243
-rand 2
-rand 8725874
-rand 10345246
-rand 2
-rand 26
-rand 178
-rand 2222240
-rand 9853776
-rand 30
-rand 5507646
-rand 1
-rand 18
-rand 651
-rand 101
-rand 11568712
-rand 108
-rand 9423176
-rand 1127053
-rand 5551558
-rand 72993
-rand 180368
-rand 53
-rand 128
-rand 12
-rand 24
-rand 40
-rand 30
-rand 244
-rand 65
-rand 4879176
-rand 11891703
-rand 48
-rand 7556978
-rand 597835
-rand 86
-rand 72993
-rand 15
-rand 35
-rand 7640917
-rand 12
-rand 12470205
-rand 4847812
-rand 34
-rand 50665
-rand 6
-rand 32
-rand 9760
-rand 198
-rand 11431440
-rand 17
-rand 94551
-rand 221728
-rand 50
-rand 2961
-rand 23
-rand 5391460
-rand 12
-rand 21
-rand 5610729
-rand 3
-rand 32
-rand 6
-rand 47
-rand 5
-rand 3625920
-rand 28
-rand 11628686
-rand 198
-rand 9516481
-rand 4
-rand 11794362
-rand 4378773
-rand 106
-rand 10
-rand 12
-rand 7211526
-rand 75
-rand 50
-rand 8749595
-rand 5462308
-rand 301
-rand 12296751
-rand 51
-rand 25
-rand 8200583
-rand 808618
-rand 4961660
-rand 22
-rand 3
-rand 50
-rand 9202792
-rand 17
-rand 1
-rand 73
-rand 5189951
-rand 9884416
-rand 99
-rand 42
-rand 7589216
-rand 3199669
-rand 6
-rand 4700516
-rand 19
-rand 180368
-rand 8542504
-rand 44910
-rand 64
-rand 5763063
-rand 276
-rand 6492190
-rand 37
-rand 17
-rand 7630642
-rand 13
-rand 28
-rand 24
-rand 80
-rand 94
-rand 106
-rand 93
-rand 27
-rand 82
-rand 158
-rand 8402497
-rand 8849025
-rand 21
-rand 9127020
-rand 42063
-rand 2038133
-rand 303
-rand 52
-rand 19
-rand 62
-rand 4961660
-rand 35
-rand 925
-rand 9760
-rand 6224
-rand 17
-rand 896405
-rand 4464
-rand 118
-rand 89
-rand 78
-rand 33
-rand 9
-rand 31
-rand 75
-rand 9714120
-rand 1313
-rand 4194303
-rand 4872285
-rand 2912
-rand 81
-rand 2348244
-rand 75
-rand 11505019
-rand 5236828
-rand 158
-rand 49
-rand 103
-rand 6452202
-rand 35
-rand 13
-rand 4827901
-rand 6
-rand 143
-rand 42
-rand 2404414
-rand 9359280
-rand 26145
-rand 6
-rand 15
-rand 9240157
-rand 2373637
-rand 22
-rand 11243565
-rand 1154
-rand 8836625
-rand 49
-rand 276
-rand 6001724
-rand 4
-rand 904
-rand 68
-rand 187
-rand 11033775
-rand 34
-rand 3867
-rand 988229
-rand 2844692
-rand 9690506
-rand 65537
-rand 893795
-rand 5
-rand 11
-rand 87
-rand 55
-rand 7822684
-rand 6874483
-rand 8581853
-rand 97
-rand 66
-rand 9195908
-rand 12
-rand 6
-rand 12279510
-rand 40001
-rand 3
-rand 3056
-rand 12750000
-rand 5
-rand 234
-rand 4
-rand 5
-rand 94
-rand 58
-rand 10396043
-rand 75
-rand 75
-rand 8402497
-rand 4729742
-rand 4676979
-rand 3062228
-rand 6665882
-rand 26
-rand 82
-rand 3647044
-rand 9776538
-rand 11190
-rand 83
-rand 651
-rand 7263698
-rand 2541926
-rand 7312313
-rand 4484470
-rand 34
-rand 3625920
-rand 22
-rand 70
-rand 9488575
-rand 38
-rand 605
-rand 20001
-rand 83
-rand 3126
-rand 7
-rand 140
-rand 363533
-rand 34
-rand 110
-rand 32
-rand 80847
-rand 2558
-rand 9258911
-rand 101
-rand 10712723
-rand 156
-rand 5163347
-rand 3
-rand 37
-rand 54
-rand 7302004
-rand 16
-rand 5163347
-rand 75
-rand 101
-rand 11
-rand 827354
-rand 738474
-rand 36
-rand 127
-rand 41
-rand 2877
-rand 2618672
-rand 12
-rand 10626960
-rand 11087059
-rand 9913614
-rand 8052
-rand 11375145
-rand 13
-rand 180
-rand 5745785
-rand 8914602
-rand 8293590
-rand 344
-rand 7069501
-rand 12749999
-rand 11628686
-rand 82
-rand 9
-rand 8530372
-rand 41
-rand 1536817
-rand 6518593
-rand 3837994
-rand 12217972
-rand 109
-rand 3917978
-rand 6
-rand 6
-rand 7263698
-rand 45
-rand 19
-rand 8968066
-rand 6697934
-rand 1890532
-rand 57
-rand 114
-rand 8984592
-rand 36
-rand 30
-rand 13
-rand 14
-rand 23
-rand 11150426
-rand 11229772
-rand 5
-rand 20001
-rand 3860463
-rand 49
-rand 7
-rand 11
-rand 8307631
-rand 3901913
-rand 65
-rand 70
-rand 793584
-rand 3
-rand 17
-rand 3146170
-rand 61
-rand 10361549
-rand 4919437
-rand 211
-rand 15
-rand 1418773
-rand 11187797
-rand 9396111
-rand 10396043
-rand 66
-rand 42
-rand 4501
-rand 17
-rand 597835
-rand 4501842
-rand 5685527
-rand 75
-rand 10190065
-rand 3417418
-rand 55
-rand 4773826
-rand 4194305
-rand 7630642
-rand 9
-rand 257
-rand 8667342
-rand 38
-rand 32
-rand 11147193
-rand 10542698
-rand 3002
-rand 27
-rand 11533181
-rand 66
-rand 2912
-rand 71
-rand 97
-rand 89
-rand 36
-rand 43
-rand 335
-rand 21
-rand 21
-rand 9212757
-rand 4464
-rand 79
-rand 37
-rand 73
-rand 6031
-rand 7888319
-rand 29
-rand 4
-rand 19
-rand 1516
-rand 66
-rand 10396043
-rand 44
-rand 175
-rand 50
-rand 4347823
-rand 2174328
-rand 12740041
-rand 9781
-rand 78
-rand 849993
-rand 4628324
-rand 84
-rand 11
-rand 12582192
-rand 13
-rand 318
-rand 6
-rand 12475795
-rand 5505
-rand 106
-rand 42
-rand 29
-rand 449565
-rand 4501842
-rand 13
-rand 1378
-rand 270
-rand 9964
-rand 75
-rand 129
-rand 26145
-rand 194
-rand 4165738
-rand 34295
-rand 27
-rand 6087
-rand 13
-rand 175
-rand 114
-rand 27
-rand 9560914
-rand 100
-rand 181
-rand 40958
-rand 89
-rand 6
-rand 10828631
-rand 4194305
-rand 87
-rand 4468286
-rand 4872285
-rand 6300126
-rand 11603080
-rand 12481798
-rand 76436
-rand 4484470
-rand 17
-rand 10892624
-rand 60
-rand 12582192
-rand 49
-rand 15733
-rand 43759
-rand 17
-rand 11
-rand 50000
-rand 264220
-rand 69
-rand 11608698
-rand 75
-rand 26
-rand 19
-rand 73
-rand 5435264
-rand 77
-rand 26145
-rand 191
-rand 8488
-rand 5
-rand 303
-rand 893795
-rand 83
-rand 59
-rand 909174
-rand 2089521
-rand 70
-rand 9192442
-rand 6419452
-rand 2716225
-rand 10661854
-rand 8
-rand 27
-rand 28
-rand 1715088
-rand 1364
-rand 6393748
-rand 11468619
-rand 9118537
-rand 9560914
-rand 532
-rand 831
-rand 1035599
-rand 12243492
-rand 47
-rand 10722467
-rand 44
-rand 672
-rand 3529
-rand 180
-rand 11389236
-rand 3
-rand 8010136
-rand 114599
-rand 7968792
-rand 11568712
-rand 141
-rand 42
-rand 7480828
-rand 164
-rand 924
-rand 3
-rand 5236828
-rand 118
-rand 9760
-rand 47
-rand 5080329
-rand 5969831
-rand 71
-rand 7603265
-rand 10
-rand 3175470
-rand 9690506
-rand 5969831
-rand 3009809
-rand 101
-rand 71
-rand 9194782
-rand 1536817
-rand 277
-rand 21
-rand 114599
-rand 72
-rand 8010136
-rand 162
-rand 6971786
-rand 1364
-rand 5753
-rand 57
-rand 133
-rand 41
-rand 570110
-rand 5439266
-rand 8581853
-rand 9831077
-rand 86894
-rand 16
-rand 11704625
-rand 28
-rand 57
-rand 11152938
-rand 7
-rand 22
-rand 10554399
-rand 4283124
-rand 11753703
-rand 107
-rand 61
-rand 84
-rand 6185594
-rand 33
-rand 39
-rand 8388608
-rand 9
-rand 2
-rand 11568712
-rand 893795
-rand 92
-rand 6
-rand 181
-rand 5551558
-rand 18
-rand 80
-rand 5538449
-rand 481668
-rand 15
-rand 19
-rand 25154
-rand 22
-rand 775
-rand 570110
-rand 4630694
-rand 52
-rand 24
-rand 80
-rand 5560058
-rand 123
-rand 28
-rand 588
-rand 18
-rand 4501842
-rand 75
-rand 243
-rand 9334618
-rand 10581996
-rand 1321
-rand 17
-rand 97
-rand 243
-rand 343
-rand 92
-rand 4
-rand 11522112
-rand 30
-rand 117
-rand 141
-rand 7
-rand 543757
-rand 31
-rand 10712723
-rand 34
-rand 14
-rand 150001
-rand 2668
-rand 221728
-rand 12117984
-rand 5227146
-rand 9516481
-rand 66
-rand 4179019
-rand 3849680
-rand 13
-rand 60
-rand 78
-rand 3703195
-rand 342
-rand 30
-rand 9
-rand 29
-rand 9070928
-rand 160
-rand 65535
-rand 127
-rand 62804
-rand 198
-rand 6492190
-rand 19
-rand 532
-rand 89
-rand 32664
-rand 19
-rand 301
-rand 17
-rand 282
-rand 4842026
-rand 11272836
-rand 11277913
-rand 2961
-rand 64
-rand 60
-rand 93
-rand 5702312
-rand 7556978
-rand 3146170
-rand 118
-rand 40001
-rand 56470
-rand 5685527
-rand 7580178
-rand 21
-rand 6848864
-rand 11465766
-rand 81
-rand 175
-rand 27
-rand 7
-rand 14
-rand 4872285
+# result-not-floor/prod<2^53: near02 line 1898
+srand 769231636
+rand 12506739
